@@ -8,13 +8,12 @@ namespace Topsim
 namespace Sys
 
 theorem bufi_step {s : Sys} (hs : SInv s) (h : BufI s) {pid : Nat} (hen : s.enabled pid) (orc : Oracle)
-    (hno : s.alg ≠ .oracle) : BufI (s.resume pid orc).1 := by
+    (hpre : s.alg = .oracle → orc.preOk) : BufI (s.resume pid orc).1 := by
   obtain ⟨p, hp, ha, hmin⟩ := hen
   obtain ⟨hpm, hpid⟩ := proc?_some hp
   subst hpid
   have hcore := resume_core s p.pid orc p hp ha
   have hpw := hs.pw
-  have hpre : s.alg = .oracle → orc.preOk := fun e => absurd e hno
   refine BufI.congr (a := (s.block p orc).1.updProc p.pid (fin (s.block p orc).2.1 (s.block p orc).2.2 p.wake)) ?_
     (resume_buf s p.pid orc p hp ha) hcore.procs hcore.obs (resume_plans s p.pid orc p hp ha)
   cases hk : p.k with
@@ -170,7 +169,13 @@ theorem reach_bufi (s0 s : Sys) (hw : WFConfig s0) (hbuf : bufList s0.buf = []) 
   | start => exact start_bufi s0 hw hbuf
   | step s pid orc hr hen ih =>
     have halg := reach_alg hr
-    exact bufi_step (reach_inv s0 s hw (hr.toOk hno)) ih hen orc (by rw [halg]; exact hno)
+    exact bufi_step (reach_inv s0 s hw (hr.toOk hno)) ih hen orc (fun e => absurd e (by rw [halg]; exact hno))
+
+theorem reachOk_bufi (s0 s : Sys) (hw : WFConfig s0) (hbuf : bufList s0.buf = []) (h : ReachOk s0 s) :
+    BufI s := by
+  induction h with
+  | start => exact start_bufi s0 hw hbuf
+  | step s pid orc hr hen hpre ih => exact bufi_step (reach_inv s0 s hw hr) ih hen orc hpre
 
 end Sys
 end Topsim
